@@ -5,6 +5,9 @@
     mon <wire-ev>* | <res>*
         the Spec monitor on a chronological wire log and per-call results
         -> ok | bad X=<0|1> S=<0|1> O=<0|1> C=<0|1>
+    monm <wire-ev>* | <res>*
+        the same with clause (X′): an exchange is tx (rx)+ owned by one thread (bridged targets: acknowledgement(s), then
+        the wrapped reply)  -> ok | bad X=… S=… O=… C=…
     rq <wire-ev>*
         clause (Q): consecutive transmissions carry different IPMB request sequence numbers -> 0 | 1
     run <xl> <nextSeq> <sessSeq> <calls:cmd>,<calls:cmd>,… <ka ticks|-> <closer tid|-> <join 0|1> <seqLocked 0|1>
@@ -108,6 +111,13 @@ def handleC14 (line : String) : String :=
     | some wire, some rs =>
       if accepts wire rs then "ok"
       else s!"bad X={b01 (exchangesOk wire)} S={b01 (seqIncreasing wire)} O={b01 (ownReply wire rs)} C={b01 (closeLast wire)}"
+    | _, _ => "bad-op"
+  | "monm" :: rest =>
+    let (w, r) := splitBar rest
+    match w.mapM parseWEv, r.mapM parseRes with
+    | some wire, some rs =>
+      if acceptsMulti wire rs then "ok"
+      else s!"bad X={b01 (exchangesOkMulti wire)} S={b01 (seqIncreasing wire)} O={b01 (ownReply wire rs)} C={b01 (closeLast wire)}"
     | _, _ => "bad-op"
   | "rq" :: w =>
     match w.mapM parseWEv with
